@@ -99,6 +99,14 @@ struct MKey {
   friend bool operator<=(const MKey& a, const MKey& b) { return a.v <= b.v; }
   friend bool operator>=(const MKey& a, const MKey& b) { return a.v >= b.v; }
 };
+} // namespace
+namespace std {
+template <>
+struct hash<MKey> { // (the maps below are given their hash through policy::hash; this only keeps xenium::hash<MKey> instantiable)
+  size_t operator()(const MKey& k) const { return (size_t)k.v * 2654435761u; }
+};
+} // namespace std
+namespace {
 inline int key_int(int k) { return k; }
 inline int key_int(const MKey& k) { return k.v; }
 template <class H>
